@@ -12,15 +12,38 @@ import (
 )
 
 type (
-	WaitGroup = sync.WaitGroup
-	Once      = sync.Once
-	Cond      = sync.Cond
-	Map       = sync.Map
-	Pool      = sync.Pool
-	Locker    = sync.Locker
+	Once   = sync.Once
+	Map    = sync.Map
+	Pool   = sync.Pool
+	Locker = sync.Locker
 )
 
-func NewCond(l Locker) *Cond { return sync.NewCond(l) }
+// WaitGroup and Cond are the real things, except that an operation that can wake a blocked goroutine
+// tells the scheduler so (like Close), so that quiescence is re-examined instead of assumed.
+type WaitGroup struct{ wg sync.WaitGroup }
+
+func (w *WaitGroup) Add(d int) {
+	if d < 0 {
+		sched.NoteClose()
+	}
+	w.wg.Add(d)
+}
+func (w *WaitGroup) Done() { sched.NoteClose(); w.wg.Done() }
+func (w *WaitGroup) Wait() { w.wg.Wait() }
+
+type Cond struct {
+	L Locker
+	c *sync.Cond
+}
+
+func NewCond(l Locker) *Cond { return &Cond{L: l, c: sync.NewCond(l)} }
+func (c *Cond) Wait()        { c.c.Wait() }
+func (c *Cond) Signal()      { sched.NoteClose(); c.c.Signal() }
+func (c *Cond) Broadcast()   { sched.NoteClose(); c.c.Broadcast() }
+
+func OnceFunc(f func()) func()                                 { return sync.OnceFunc(f) }
+func OnceValue[T any](f func() T) func() T                     { return sync.OnceValue(f) }
+func OnceValues[T1, T2 any](f func() (T1, T2)) func() (T1, T2) { return sync.OnceValues(f) }
 
 // Used keeps the import alive.
 const Used = true
